@@ -637,6 +637,7 @@ class Sim:
                 info['dropped'] = True
                 return info
             conn.current = m
+            info['emps_before'] = list(o.employees)
             o.sel = FakeSelector(node, conn, node.dirs[src])
             was = o.handle_system_error
             sim = self
@@ -788,7 +789,7 @@ class Sim:
 
     # ------------------------------------------------------------------ runs
     def run(self, policy=None, max_steps=3000, schedule=None,
-            after=None) -> bool:
+            after=None, before=None) -> bool:
         """Run to quiescence.  Returns True when quiescent."""
         policy = policy or Policy.uniform()
         i = 0
@@ -805,6 +806,8 @@ class Sim:
                     raise RuntimeError(f'schedule step {tr} not enabled')
             else:
                 tr = policy.pick(self.rng, en, self)
+            if before:
+                before(self)
             rec = self.fire(tr)
             if after:
                 after(self, rec)
